@@ -723,11 +723,19 @@ HX void hx_pa_keyspec(uint64_t form, uint64_t) {
 // C05/C01: arguments that open a sub-group (their destination is another handler).  line: 0 "--output -f V", 1 "--outp -f V",
 // 2 "-o -f V", 3 "-of V", 4 "--output --file V", 5 "--output --fi V", 6 "-i -f V"
 HX void hx_pa_subgroup(uint64_t noabbr, uint64_t line) {
-   Handler master(noabbr ? Handler::hfNoAbbr : 0), sub_out(noabbr ? Handler::hfNoAbbr : 0), sub_in(noabbr ? Handler::hfNoAbbr : 0);
+   Handler master((noabbr & 1) ? Handler::hfNoAbbr : 0), sub_out((noabbr & 1) ? Handler::hfNoAbbr : 0), sub_in((noabbr & 1) ? Handler::hfNoAbbr : 0);
    int out_file = 0, in_file = 0, out_cache = 0; bool q = false;
    sub_out.addArgument("f,file", DEST_VAR(out_file), "output file"); sub_out.addArgument("c,cache", DEST_VAR(out_cache), "output cache");
    sub_in.addArgument("f,file", DEST_VAR(in_file), "input file");
-   master.addArgument("o,output", sub_out, "output arguments"); master.addArgument("i,input", sub_in, "input arguments"); master.addArgument("q,quiet", DEST_VAR(q), "quiet");
+   const bool mandatory = (noabbr & 2) != 0; noabbr &= 1;          // bit 1: the sub-group argument -o,--output is mandatory
+   auto* so = master.addArgument("o,output", sub_out, "output arguments"); master.addArgument("i,input", sub_in, "input arguments"); master.addArgument("q,quiet", DEST_VAR(q), "quiet");
+   if (mandatory) so->setIsMandatory();
+   if (line == 7) {            // only "-q": a mandatory sub-group argument that is not used must be reported
+      std::vector<std::string> w1; w1.push_back("-q"); Argv av1(w1);
+      int rc1 = guarded([&] { master.evalArguments(av1.argc(), av1.argv()); });
+      vs_assert(rc1 != 2 && (rc1 == 1) == mandatory, "a missing mandatory argument is reported - also when it is an argument that opens a sub-group");
+      return;
+   }
    unsigned char d0 = vs_u8("val"), d1 = vs_u8("val"); vs_assume(d0 >= '1' && d0 <= '9' && d1 >= '0' && d1 <= '9');
    char val[3] = {(char) d0, (char) d1, 0}; int want = (d0 - '0') * 10 + (d1 - '0');
    static const char* const L[][3] = {{"--output", "-f", nullptr}, {"--outp", "-f", nullptr}, {"-o", "-f", nullptr}, {"-of", nullptr, nullptr}, {"--output", "--file", nullptr}, {"--output", "--fi", nullptr}, {"-i", "-f", nullptr}};
